@@ -300,10 +300,10 @@ KANI_STANDINS = {
     'C18': [
         dict(host='src/local/mod.rs', file='harness_hdr.rs', mod='verif_harness_hdr', harness='header_parse_total', function='Header::parse', kind='complete', tiers=('quick', 'thorough'),
              label='Header::parse decodes the version and all six counts as RFC 8536 lays them out and consumes exactly 44 bytes (Kani/CBMC, loop-free, every input of up to 48 bytes)'),
-        dict(host='src/local/timezone.rs', file='harness_tzif.rs', mod='verif_harness_tzif', harness='tzif_v1_1_1', function='TimeZone::from_tzif', kind='bounded', tiers=('quick', 'thorough'),
-             label='BOUNDED (version-1 file, exactly 1 transition and 1 type, all 15 table bytes symbolic): the decoded transition time, type index and utoff are the big-endian values of the bytes'),
-        dict(host='src/local/timezone.rs', file='harness_tzif.rs', mod='verif_harness_tzif', harness='tzif_v1_0_1', function='TimeZone::from_tzif', kind='bounded', tiers=('quick', 'thorough'),
-             label='BOUNDED (version-1 file, 0 transitions, 1 type): the decoded utoff is the big-endian value of the bytes, no rule'),
+        dict(host='src/local/timezone.rs', file='harness_tzif.rs', mod='verif_harness_tzif', harness='tzif_v1_1_1_decode', function='TimeZone::from_tzif', kind='bounded', tiers=('quick', 'thorough'),
+             label='BOUNDED (version-1 file, exactly 1 transition and 1 type, well-formed type index, table bytes symbolic): the file is accepted and the decoded transition time, type index and utoff are the big-endian values of the bytes'),
+        dict(host='src/local/timezone.rs', file='harness_tzif.rs', mod='verif_harness_tzif', harness='tzif_v1_0_1_decode', function='TimeZone::from_tzif', kind='bounded', tiers=('quick', 'thorough'),
+             label='BOUNDED (version-1 file, 0 transitions, 1 type): the file is accepted, the decoded utoff is the big-endian value of the bytes, no rule'),
     ],
 }
 
@@ -498,7 +498,17 @@ def _check_property(prop, tier, seed, mine, scratch, findings, t0):
         has_input = bool(ce and ce.get('inputs') is not None)
         props_f = r.built.fns.get(e['fn'], {}).get('props') or []
         own = prop in props_f
-        shared = own and len(props_f) > 1
+        # which of the properties sharing this contract does the failed obligation speak about? A postcondition / invariant is about
+        # the value (and, for C15, possibly about Ok-or-Err); a precondition, overflow, bounds or assertion failure is about not
+        # panicking. C19 is purely "never a crash", C15 is validation (status, error content, no panic), the others are value properties.
+        value_kind = e['message'].startswith('postcondition not satisfied') or 'invariant' in e['message']
+        siblings = [x for x in props_f if x != prop]
+        if prop == 'C19':
+            shared = own and bool(siblings) and value_kind
+        elif prop == 'C15':
+            shared = own and bool(siblings) and value_kind
+        else:
+            shared = own and any(x in ('C19', 'C15') for x in siblings) and not value_kind
         if shared and not has_input:
             # The function's contract carries several properties at once (value and validation of a setter: C09 and C15; offset
             # and crash-freedom of a lookup: C18 and C19). The battery of this property looks only at what this property is about
